@@ -163,3 +163,55 @@ def validate(run, events, name='Trace_run'):
         return [(int(a), int(b), c) for a, b, c in _REJ.findall(res.out)]
     finally:
         shutil.rmtree(d, ignore_errors=True)
+
+
+def histories(run, names, num, depth, accept, part='history', max_iters=(1, 2, 3), seed_shift=0):
+    """Sessions WITH the user's edits (GraphSLAM!SetPose / SetMeas between queries, optimizer calls and reloads), validated by Trace_GraphSLAM.
+    `accept(clause, event)` selects the rejections that are verdicts of the calling property: the clauses `query-fresh` / `opt-fresh` say that
+    the value of a call is a function of the abstract state - the same call on a graph rebuilt from the current numbers gives the same bits -,
+    so a graph reached THROUGH A HISTORY is held to the same standard as a fresh one."""
+    behaviours = generate(run, names, run.seed + seed_shift, num, depth, max_iters=max_iters, workers=8, edits=True)
+
+    def a(op, **kw):
+        d = {'op': op, 'q': '-', 'target': 0, 'maxIter': 0, 'fixFirst': False, 'verbose': False, 'tol': '-', 'idx': 0, 'flag': False}
+        d.update(kw)
+        return d
+    # hand-written histories, whatever the seed generated: every query before and after an optimizer run that ends at max_iter, after an
+    # in-place and after a re-assigning pose edit, after each kind of measurement edit; then a second optimizer call
+    qs = ('calc_chi2', 'edge_chi2', 'edge_error', 'edge_jacobians', 'edge_contribs')
+    for n in names:
+        beh = [a('Query', q=q, target=t) for t in (1, 2) for q in qs]
+        beh += [a('OptCall', maxIter=2, fixFirst=True, tol='0')] + [a('Query', q=q, target=t) for t in (1, 2, 3) for q in qs]
+        for k in (1, 2, 3, 4):
+            beh += [a('SetPose', idx=k)] + [a('Query', q=q, target=t) for t in (1, 2, 3) for q in qs]
+        for k in (1, 2, 3):
+            beh += [a('SetMeas', idx=k)] + [a('Query', q=q, target=t) for t in (1, 2, 3) for q in qs]
+        beh += [a('OptCall', maxIter=3, fixFirst=False, tol='1e-4'), a('Query', q='calc_chi2', target=1), a('SetPose', idx=2), a('OptCall', maxIter=2, fixFirst=True, tol='0', verbose=True),
+                a('Query', q='calc_chi2', target=1)]
+        behaviours.append((n, beh))
+    events = []
+    sessions = play(behaviours, run.seed, events, twin_every=10 ** 6)
+    rejects = validate(run, events, name='Trace_history')
+    byid = {(e['sid'], e['seq']): e for e in events}
+    ops = {}
+    for e in events:
+        ops[e['op']] = ops.get(e['op'], 0) + 1
+        if e['op'] in ('Query', 'OptCall'):
+            run.count(key=(part, e['sid'], e['seq']), nontrivial=True)
+    if min(ops.get('SetPose', 0), ops.get('SetMeas', 0), ops.get('OptCall', 0), ops.get('Query', 0)) == 0:
+        raise RuntimeError('vacuity guard (histories): %r' % ops)
+    run.notes[part] = {'sessions': len(sessions), 'events_by_operation': ops}
+    run.replayed += len(sessions)
+    n = 0
+    for sid, seq, clause in rejects:
+        ev = byid[(sid, seq)]
+        if not accept(clause, ev):
+            continue
+        s = sessions[sid]
+        n += 1
+        prefix = [{k: v for k, v in x.items() if k not in ('verts', 'edges', 'rep', 'cls')} for x in events if x['sid'] == sid and x['seq'] < seq][-6:]
+        run.violation(dict(part=part, clause=clause, op=ev['op'], q=ev.get('q'), template=s.template),
+                      'history (template %s, session %d event %d, %s %s): clause %s - the call gives another value on the graph reached through this history than on a graph '
+                      'rebuilt from the same numbers | preceding calls %r' % (s.template, sid, seq, ev['op'], ev.get('q', ''), clause, [(x['op'], x.get('q', x.get('idx'))) for x in prefix]),
+                      dict(template=s.template, event={k: v for k, v in ev.items() if k not in ('verts', 'edges')}, prefix=prefix))
+    return n
